@@ -9,10 +9,13 @@ theorem C13_tie_size_limit : ExoVerif.Gen.oracleTxSizeLimit = 1000 := by decide
 /-- msg_server_create_price.go: maxFutureOffset is the 5 s of `checkTimestamp`. -/
 theorem C13_tie_future_offset : ExoVerif.Gen.oracleMaxFutureOffsetSec = 5 := by decide
 
-/-- The model's `anteHandle` ignores `sigValid` exactly because the oracle branch of
-SigVerificationDecorator discards the result of VerifySignature. When the code is repaired this
-fact flips, this theorem breaks, and `C13_full` must be re-proved for the repaired model. -/
-theorem C13_tie_signature_result_discarded : ExoVerif.Gen.oracleSigResultUsed = false := by decide
+/-- The model's `anteHandle` refuses `sigValid = false` because, in the oracle branch of
+SigVerificationDecorator, every `VerifySignature` call is the negated condition of an `if` that
+returns an error — and that condition is exactly the one transcribed (skipped only when
+simulating). If the result is dropped again, or the guard is weakened, this breaks. -/
+theorem C13_tie_signature_checked :
+    ExoVerif.Gen.oracleSigResultUsed = true ∧
+    ExoVerif.Gen.oracleSigGuardCond = "!simulate && !pubKey.VerifySignature(bytesToSign, data.Signature)" := by decide
 
 theorem C13_tie_shapes :
     ExoVerif.Gen.oracleNonceShape.length = 2 ∧ ExoVerif.Gen.oracleTimestampShape.length = 2 := by decide
